@@ -366,7 +366,8 @@ def native_spec(shape):
     for i, c in enumerate(shape.kinds):
         names += {"R": [f"w{i}"], "G": [f"w{i}", f"st{i}", f"sh{i}"], "F": [f"w{i}", f"st{i}", f"sh{i}"], "K": [f"w{i}"], "k": [f"w{i}"], "P": [f"p{i}"]}[c]
     names += ["line_width", "tolerance", "line_penalty", "adj_demerits", "rs_w", "rs_st", "rs_sh", "rs_order", "looseness"]
-    rnd = random.Random(hash(shape.kinds) & 0xffff)
+    import zlib
+    rnd = random.Random(zlib.crc32(shape.kinds.encode()))  # deterministic across processes (str hashes are salted)
     pt = 65536
     vecs = []
     for _ in range(32):
